@@ -292,10 +292,9 @@ def join(dom, a, b):
     if a.kind == "const" and a.data is None and b.kind == "const" and b.data is None:
         return a
     if a.kind == "const" and a.data is None:
-        r = AV(b.kind, b.data, b.ann, True)
-        return r
+        return AV(b.kind, b.data, dom.join_ann(b.ann, a.ann) if a.ann else b.ann, True)
     if b.kind == "const" and b.data is None:
-        return AV(a.kind, a.data, a.ann, True)
+        return AV(a.kind, a.data, dom.join_ann(a.ann, b.ann) if b.ann else a.ann, True)
     if a.kind == b.kind:
         k = a.kind
         if k == "const":
@@ -788,7 +787,7 @@ class Interp:
                 if cur is None:
                     return
                 if is_none:
-                    env.set(test.left.id, NONE)
+                    env.set(test.left.id, AV("const", None, cur.ann if cur.kind in ("tensor", "top", "num", "const") else E))
                 elif cur.maybe_none:
                     env.set(test.left.id, AV(cur.kind, cur.data, cur.ann, False))
 
@@ -944,6 +943,10 @@ class Interp:
 
     def getattr(self, base, attr, node):
         k = base.kind
+        if (k == "const" and base.data is None) or base.maybe_none:
+            h = getattr(self.dom, "on_null", None)
+            if h is not None:
+                h(self, base, "attribute .%s" % attr, node)
         if k == "union":
             r = None
             for alt in base.data:
@@ -1133,6 +1136,10 @@ class Interp:
         idx = self.eval_index(node.slice, env)
         self.dom.on_index_use(self, idx, node)
         k = base.kind
+        if (k == "const" and base.data is None) or base.maybe_none:
+            h = getattr(self.dom, "on_null", None)
+            if h is not None:
+                h(self, base, "subscript", node)
         if k in ("tensor", "top"):
             r = self.dom.subscript(self, base, idx, node)
             if r is not None:
@@ -1510,6 +1517,20 @@ class Interp:
         res = self.call(callee, args, kwargs, node, env)
         if res is not None and res.kind == "bottom":
             raise _Terminate()
+        if getattr(self.dom, "refine_rejected_none", False) and callee.kind == "func" and env is not None:
+            # `f(x)` returned normally: if f raises whenever x is None, x is not None from here on
+            for i, a in enumerate(node.args):
+                if isinstance(a, ast.Name) and i < len(args) and args[i].maybe_none and args[i].kind != "const":
+                    trial = list(args)
+                    trial[i] = NONE
+                    try:
+                        r2 = self.call(callee, trial, dict(kwargs), node, env)
+                    except _Terminate:
+                        r2 = BOTTOM
+                    if r2 is not None and r2.kind == "bottom":
+                        cur = env.get(a.id)
+                        if cur is not None and cur.maybe_none:
+                            self._set_existing(env, a.id, AV(cur.kind, cur.data, cur.ann, False))
         self.dom.on_call(self, callee, args, kwargs, res, node)
         return res
 
